@@ -18,7 +18,7 @@ for p in sorted(glob.glob(os.path.join(os.path.dirname(__file__), '..', 'seeded'
     mm = re.search(r'violation: ([^:]+(?:: [a-z-]+)?) ::', d.get('last_lines', ''))
     if mm:
         clause = mm.group(1)
-    now = 'yes' if d.get('detected') else 'NO'
+    now = 'superseded' if m.get('superseded') else ('yes' if d.get('detected') else 'NO')
     summ = ' '.join(m.get('summary', '').split())
     summ = summ[:150].replace('|', '/')
     rows.append('| %s | %s | %s | %s (%s) |' % (name, summ, first.replace('|', '/'), now, clause))
